@@ -176,6 +176,23 @@ func runSweep(repo, verif, listFile, outFile string, par int, onlyOps string) {
 			}
 		}
 	}
+	if only := os.Getenv("PIKOSWEEP_ONLY"); only != "" {
+		// re-run only the mutants a previous sweep log reports as survivors
+		lb, _ := os.ReadFile(only)
+		want := map[string]bool{}
+		for _, l := range strings.Split(string(lb), "\n") {
+			if strings.HasPrefix(l, "SURVIVED ") {
+				want[strings.TrimPrefix(l, "SURVIVED ")] = true
+			}
+		}
+		var keep []sweepMutant
+		for _, m := range all {
+			if want[fmt.Sprintf("%s:%d %s %s: %s", m.File, m.Line, m.Func, m.Op, m.Desc)] {
+				keep = append(keep, m)
+			}
+		}
+		all = keep
+	}
 	fmt.Printf("sweep: %d mutants over %d files\n", len(all), len(srcs))
 	results := make([]sweepResult, len(all))
 	sem := make(chan struct{}, par)
